@@ -33,7 +33,7 @@ impl Property for C15 {
         "C15"
     }
     fn rule(&self) -> String {
-        "histories of up to 30 operations over every mutating tree operation (set, delete, append, set_range, batch override_range, reset) plus compute_root and, on a non-temporary persistent tree, flush+drop+reopen; after every step get_empty_leaves_indices() (and RLN::get_empty_leaves_indices bytes) must equal the ascending list {i < mark : never written or last operation removed i} of the ideal model. \
+        "histories of up to 30 operations over every mutating tree operation (set, delete, append, set_range, batch override_range, reset) plus compute_root and, on a non-temporary persistent tree, flush+drop+reopen; after every step get_empty_leaves_indices() (and RLN::get_empty_leaves_indices bytes) must equal the ascending list {i < mark : never written or last operation removed i} of the ideal model. A quarter of the histories have the state read back by a second long-lived thread of the caller (taking turns with the thread that writes). \
          non-trivial = history containing an append, a range write at start>0, a batch, or a reopen; distinct by case content".into()
     }
     fn plan(&self, tier: Tier) -> Plan {
